@@ -406,6 +406,58 @@ func SmallPrograms() []diffrun.Program {
 	mk := func(name, body, main string) diffrun.Program {
 		return diffrun.Program{Name: "c04_" + name, Files: map[string]string{"main.go": "package main\n\n" + body + "\nfunc main() {\n" + main + "}\n"}}
 	}
+	return append(smallPrograms(mk), xpkgExplicit())
+}
+
+// xpkgExplicit: generic functions of another package instantiated explicitly (pkg.F[...]) inside a generic body,
+// with type arguments built from the enclosing type parameter; as call, as function value, with several arguments.
+func xpkgExplicit() diffrun.Program {
+	name := "c04_xpkgexplicit"
+	mod := diffrun.ModName(name)
+	return diffrun.Program{Name: name, Files: map[string]string{
+		"lib/lib.go": `package lib
+
+type Box[T any] struct{ V T }
+
+func Wrap[T any](v T) Box[T] { return Box[T]{v} }
+
+type Two[A, B any] struct {
+	A A
+	B B
+}
+
+func Pair[A, B any](a A, b B) Two[A, B] { return Two[A, B]{a, b} }
+
+func Count[T any](xs ...T) int { return len(xs) }
+`,
+		"main.go": `package main
+
+import "` + mod + `/lib"
+
+type pair[A, B any] struct {
+	a A
+	b B
+}
+
+func Twice[T any](x T) int {
+	b := lib.Wrap[[]T]([]T{x, x})
+	c := lib.Wrap[pair[T, int]](pair[T, int]{x, 1})
+	f := lib.Wrap[map[string]T]
+	p := lib.Pair[T, []T](x, []T{x, x, x})
+	q := lib.Pair[*T, func() T](&x, func() T { return x })
+	_ = q.B()
+	return len(b.V) + c.V.b*10 + len(f(map[string]T{"k": x}).V)*100 + len(p.B)*1000 + lib.Count[T](x, x)*10000 + lib.Count[[]T]()
+}
+
+func Nested[T any](x T) int { return Twice[[]T]([]T{x}) + Twice[lib.Box[T]](lib.Wrap[T](x)) }
+
+func main() {
+	println("C04/xpkgexplicit", itoa(int64(Twice(Int(1)))), itoa(int64(Twice("a"))), itoa(int64(Nested(2.5))), itoa(int64(lib.Wrap[Int](3).V)))
+}
+`}}
+}
+
+func smallPrograms(mk func(name, body, main string) diffrun.Program) []diffrun.Program {
 	return []diffrun.Program{
 		mk("localcomposite", `func LocalSlice[T any](x, y T) (int, T) {
 	type cell struct{ v T }
